@@ -120,6 +120,18 @@ pub fn step(w: &mut World, e: &Value) -> Value {
 				let mut r = w.finalize(&wn, &sl, "S2", 0, s, e["foreign"].as_bool().unwrap_or(true));
 				r["tamper"] = json!(tamper);
 				r
+			} else if tamper == "nosig" {
+				// the genuine reply with the counter-party's partial signature removed
+				let rep = e["rep"].as_u64().unwrap_or(0) as usize;
+				let s = w.pick(&sl, "S2", rep).map(|mut s| {
+					for p in s.participant_data.iter_mut() {
+						p.part_sig = None;
+					}
+					s
+				});
+				let mut r = w.finalize(&wn, &sl, "S2", rep, s, e["foreign"].as_bool().unwrap_or(true));
+				r["tamper"] = json!(tamper);
+				r
 			} else {
 				w.finalize(
 					&wn,
